@@ -101,6 +101,9 @@ def build_trace(instances, by_name, caps=None):
                 ops[k] = ops.get(k, 0) + 1
                 for tag in branch_tags(e, trace[o["pi"] - 1]["S"]):
                     ops["tag:" + tag] = ops.get("tag:" + tag, 0) + 1
+            elif e["ev"] == "topt":
+                trace.append({"ev": "topt", "li": li, "pi": cur, "ok": e["ok"], "tr": e["tr"], "msg": e["msg"][:200]})
+                ops["topt"] = ops.get("topt", 0) + 1
             elif e["ev"] == "loadfail":
                 trace.append({"ev": "loadfail", "li": li, "panic": e["panic"]})
         meta.append({"name": I["name"], "first": first, "last": len(trace), "ops": ops})
